@@ -315,6 +315,21 @@ def _run(c, T, rng, tier, binary, vh, drv, root, exts, bools):
     help_exts = re.sub(r"\s+", " ", m.group(1)).split(", ") if m else []
     if help_exts != exts:
         c.problem("correspondence", "cli.help", f"--extension possible values of the binary {help_exts} differ from Gen/Cli.v {exts}")
+    # the README block Spec/CliDoc.v was written from is the binary's own help text (default features),
+    # up to the run-time config path and the feature-gated --gemojis paragraph
+    def _norm(t):
+        t = re.sub(r"\[default: [^\]]*config\]", "[default: CONFIG]", t)
+        t = re.sub(r"--gemojis\s+Translate gemojis into UTF-8 characters", "", t)
+        return re.sub(r"\s+", " ", t).strip()
+    try:
+        readme = open(os.path.join(vlib.REPO, "README.md"), encoding="utf-8").read()
+        rm = re.search(r"```\n(A 100% CommonMark-compatible.*?)```", readme, re.S)
+        readme_same = bool(rm) and _norm(rm.group(1)) == _norm(helptext)
+    except OSError:
+        readme_same = False
+    if not readme_same:
+        c.problem("correspondence", "cli.help_readme", "the help text in README.md (from which Spec/CliDoc.v is written) is no longer the --help output of the binary: review Spec/CliDoc.v against `comrak --help`")
+    c.cov["correspondences"]["cli.help_readme"] = {"readme_block_equals_binary_help_modulo_config_path_and_gemojis": readme_same}
     c.cov["correspondences"]["cli.help"] = {"options_in_help": len(help_longs), "options_in_model": len(gen_longs), "extension_values": len(help_exts),
                                             "readme_only": "--gemojis (shortcodes feature, not in the default build: gated_flags=%s)" % T.gated}
 
@@ -364,7 +379,7 @@ def _run(c, T, rng, tier, binary, vh, drv, root, exts, bools):
                 real.append(hl_none)
             cases.append(Case("pair", real=real, docs=(MASTER,)))
     # 3. random larger subsets x format x input x sink x config
-    nrand = 450 if tier == "quick" else 6000
+    nrand = 800 if tier == "quick" else 6000
     for n in range(nrand):
         cases.append(random_case(T, rng, exts, bools, overlap=False))
     # 4. F19: the same argument on the command line and in the config file
@@ -503,7 +518,9 @@ def _run(c, T, rng, tier, binary, vh, drv, root, exts, bools):
 def describe(cs, o):
     return {"kind": cs.kind, "line": "cli_plan " + cs.token, "argv": [hx(a) for a in cs.argv], "argv_text": " ".join(a.decode("utf-8", "replace") for a in cs.argv),
             "config_file": (cs.files_before.get(b"my.config") or cs.files_before.get(b"xdg/comrak/config") or b"").decode("utf-8", "replace"),
-            "config_mode": cs.cfg_mode, "input_mode": cs.inp, "sink": cs.sink, "documents": [hx(d) for d in cs.docs], "cli_token": cs.token,
+            "config_mode": cs.cfg_mode, "input_mode": cs.inp, "sink": cs.sink, "cli_token": cs.token,
+            "files": {k.decode("utf-8", "replace"): hx(v) for k, v in cs.files_before.items()}, "stdin": hx(cs.stdin),
+            "render_model": getattr(cs, "line_m", None), "render_documented": getattr(cs, "line_d", None),
             "plan": cs.plan, "exit": o["rc"], "stdout": hx(o["stdout"][:600]), "stderr": o["stderr"][:400].decode("utf-8", "replace")}
 
 
@@ -751,3 +768,31 @@ def failure_observations(c, T, rng, binary, root):
             c.violation("failure case must end in a non-zero exit status with a message, never a crash, with nothing on stdout and targets intact", case)
     c.cov["failure_observations"] = table
     c.cov["spec_checks"]["failure cases: exit status non-zero and not a panic, message on stderr, stdout empty, --output / in-place target intact (observed)"] = len(S)
+
+
+def replay(r):
+    """./check replay <file> for a C16 failing input: run the binary again on the recorded argv / files /
+    stdin and show what the library gives under the generated and the documented options."""
+    case = r.get("case") or {}
+    if "argv" not in case:
+        return 0
+    ok, out, binary = vlib.build_cli()
+    vlib.build_harness("debug"); vlib.build_driver()
+    root = tempfile.mkdtemp(prefix="c16-replay-")
+    try:
+        argv = [unhx(a) if not isinstance(a, str) or all(ch in "0123456789abcdef-" for ch in a) else a.encode() for a in case["argv"]]
+        files = {k.encode(): unhx(v) for k, v in (case.get("files") or {}).items()}
+        o = run_case((binary, root, 0, {"argv": argv, "files": files, "stdin": unhx(case.get("stdin", "-")), "mkdirs": ["dir"]}))
+        print("binary: exit", o["rc"])
+        print("  stdout:", o["stdout"][:2000])
+        print("  stderr:", o["stderr"][:600])
+        for n, v in o["files"].items():
+            if files.get(n) != v:
+                print("  file %r now:" % n, v[:2000])
+        for k in ("render_model", "render_documented"):
+            if case.get(k):
+                res = vlib.run_one(vlib.VH["debug"], case[k])
+                print(k + ":", unhx(res[3:])[:2000] if res.startswith("ok ") else res)
+    finally:
+        shutil.rmtree(root, ignore_errors=True)
+    return 0
